@@ -340,6 +340,8 @@ class Index:
         _collect_imports(m, top, m.imports)
         for s in top:
             if isinstance(s, (ast.FunctionDef, ast.AsyncFunctionDef)):
+                if any((dotted(d) or "").split(".")[-1] == "overload" for d in s.decorator_list):
+                    continue  # typing stubs, no behaviour
                 f = FuncInfo(m, s)
                 m.functions.setdefault(s.name, f)
                 self._index_func(f)
